@@ -1,5 +1,5 @@
 import FeatherModel.Model.VisitFull
-import FeatherModel.Lemmas.VisitProj
+import FeatherModel.Lemmas.VisitProj4
 
 /-!
 # C17 lemmas — the full read of a well-formed class succeeds and delivers `fullEvents`
@@ -11,8 +11,8 @@ namespace Visit
 
 theorem leaf1_full {avail : Nat} {act : K → Act} {mk : Bool → K → Pay → Ev} {a : Attr} {p : Nat}
     (hx : leafExact act a = true) (hle : p + a.len ≤ avail) :
-    leaf1 avail act allMask mk a p = .ok { pos := p + a.len, evs := (leafEv act mk a).1,
-      dep := (leafEv act mk a).2.1, syn := (leafEv act mk a).2.2 } := by
+    leaf1 avail act allMask mk a p =
+      .ok ⟨p + a.len, (leafEv act mk a).1, (leafEv act mk a).2.1, (leafEv act mk a).2.2⟩ := by
   unfold leaf1 leafEv
   unfold leafExact at hx
   cases hact : act a.k <;> simp only [hact] at hx ⊢
@@ -20,10 +20,10 @@ theorem leaf1_full {avail : Nat} {act : K → Act} {mk : Bool → K → Pay → 
   · simp at hx; simp [hx, exactly, bind, Except.bind, pure_ok]
   · simp at hx
     have : p + a.used ≤ avail := by omega
-    simp [allMask, need, this, hx, exactly, bind, Except.bind, pure_ok]
+    simp [allMask, need, this, hle, hx, exactly, bind, Except.bind, pure_ok]
   · simp at hx
     have : p + a.used ≤ avail := by omega
-    simp [need, this, hx, exactly, bind, Except.bind, pure_ok]
+    simp [need, this, hle, hx, exactly, bind, Except.bind, pure_ok]
   · simp [pure_ok]
   · simp [allMask, need, hle, bind, Except.bind, pure_ok]
 
@@ -39,7 +39,7 @@ theorem readLeafs_full {avail : Nat} {act : K → Act} {mk : Bool → K → Pay 
     simp only [List.all_cons, Bool.and_eq_true] at hx
     simp only [attrLens, List.map_cons, lensSize_cons] at hle ⊢
     have h6 : p + 6 ≤ avail := by omega
-    have h1 := leaf1_full (mk := mk) (p := p + 6) hx.1 (by omega)
+    have h1 := leaf1_full (avail := avail) (mk := mk) (p := p + 6) hx.1 (by omega)
     have h2 := ih (p + 6 + a.len) hx.2 (by simp only [attrLens]; omega)
     simp only [attrLens] at h2
     simp only [readLeafs, need, h6, if_true, bind, Except.bind, h1, h2, pure_ok, leafsEv]
@@ -54,7 +54,7 @@ theorem readRecComp_full {avail : Nat} {r : Nat} {rc : RecComp} {p : Nat}
   simp only [RecComp.size, attrsSize_eq] at hle ⊢
   have h4 : p + 4 ≤ avail := by omega
   have h2 : p + 4 + 2 ≤ avail := by omega
-  have h3 := readLeafs_full (mk := Ev.rAttr r) rc.attrs (p + 4 + 2) hx (by omega)
+  have h3 := readLeafs_full (avail := avail) (mk := Ev.rAttr r) rc.attrs (p + 4 + 2) hx (by omega)
   simp only [readRecComp, full, need, h4, h2, if_true, bind, Except.bind, h3, pure_ok, recCompEv]
   congr 2
   omega
@@ -70,7 +70,7 @@ theorem readRecComps_full {avail : Nat} : ∀ (comps : List RecComp) (r p : Nat)
     simp only [List.all_cons, Bool.and_eq_true] at hx
     have hs : compsSize (rc :: rcs) = rc.size + compsSize rcs := by simp [compsSize]
     rw [hs] at hle ⊢
-    have h1 := readRecComp_full (r := r) (p := p) hx.1 (by omega)
+    have h1 := readRecComp_full (avail := avail) (r := r) (p := p) hx.1 (by omega)
     have h2 := ih (r + 1) (p + rc.size) hx.2 (by omega)
     simp only [readRecComps, h1, h2, bind, Except.bind, pure_ok, recCompsEv]
     congr 2
@@ -93,7 +93,7 @@ theorem readClassAttrs_full {avail : Nat} : ∀ (as : List CAttr) (st : CSt) (p 
       simp only [cattrLens, List.map_cons, cattrLen, lensSize_cons] at hle ⊢
       have h6 : p + 6 ≤ avail := by omega
       have hx1 : leafExact classAct a = true := by simpa [cattrExact] using hx.1
-      have h1 := leaf1_full (mk := Ev.cAttr) (p := p + 6) hx1 (by omega)
+      have h1 := leaf1_full (avail := avail) (mk := Ev.cAttr) (p := p + 6) hx1 (by omega)
       simp only [classAttrsWf] at hwf
       by_cases hal : classAct a.k = .always
       · simp only [hal, if_true, Bool.and_eq_true, Bool.not_eq_true'] at hwf
@@ -118,11 +118,11 @@ theorem readClassAttrs_full {avail : Nat} : ∀ (as : List CAttr) (st : CSt) (p 
       have hlen : len = 2 + compsSize comps := by rw [hx1.1]; rfl
       have h6 : p + 6 ≤ avail := by omega
       have h8 : p + 6 + 2 ≤ avail := by omega
-      have h1 := readRecComps_full comps 0 (p + 6 + 2) hx1.2 (by omega)
+      have h1 := readRecComps_full (avail := avail) comps 0 (p + 6 + 2) hx1.2 (by omega)
       have h2 := ih { st with hadRecord := true } (p + 6 + len) hx.2 hwf.2 (by simp only [cattrLens]; omega)
       simp only [cattrLens] at h2
-      have hex : exactly (p + 6 + 2 + compsSize comps - (p + 6)) len = .ok () := by
-        have : p + 6 + 2 + compsSize comps - (p + 6) = len := by omega
+      have hex : exactly (p + 6 + len - (p + 6)) len = .ok () := by
+        have : p + 6 + len - (p + 6) = len := by omega
         rw [this]; exact exactly_self _
       have hpos : p + 6 + 2 + compsSize comps = p + 6 + len := by omega
       simp only [readClassAttrs, need, h6, h8, if_true, bind, Except.bind, allMask, hwf.1, Bool.false_eq_true,
@@ -138,7 +138,7 @@ theorem readField_full {avail : Nat} {i : Nat} {f : Field} {p : Nat}
   simp only [Field.size, attrsSize_eq] at hle ⊢
   have h4 : p + 6 ≤ avail := by omega
   have h2 : p + 6 + 2 ≤ avail := by omega
-  have h3 := readLeafs_full (mk := Ev.fAttr i) f.attrs (p + 6 + 2) hx (by omega)
+  have h3 := readLeafs_full (avail := avail) (mk := Ev.fAttr i) f.attrs (p + 6 + 2) hx (by omega)
   simp only [readField, full, need, h4, h2, if_true, bind, Except.bind, h3, pure_ok, fieldEv]
   congr 2
   omega
@@ -154,7 +154,7 @@ theorem readFields_full {avail : Nat} : ∀ (fs : List Field) (i p : Nat),
     simp only [List.all_cons, Bool.and_eq_true] at hx
     have hs : fieldsSize (f :: fs) = f.size + fieldsSize fs := by simp [fieldsSize]
     rw [hs] at hle ⊢
-    have h1 := readField_full (i := i) (p := p) hx.1 (by omega)
+    have h1 := readField_full (avail := avail) (i := i) (p := p) hx.1 (by omega)
     have h2 := ih (i + 1) (p + f.size) hx.2 (by omega)
     simp only [readFields, h1, h2, bind, Except.bind, pure_ok, fieldsEv]
     congr 2
@@ -204,10 +204,9 @@ theorem readCodeAttrs_full {avail i : Nat} : ∀ (as : List Attr) (acc : KAcc) (
         exact hwf
     have h2 := ih (accAddPure i a acc) (p + 6 + a.len) hx.2 hwf' (by simp only [attrLens]; omega)
     simp only [attrLens] at h2
-    have hpos : p + 6 + codeUsed a = p + 6 + a.len := by omega
-    simp only [readCodeAttrs, need, h6, hu, if_true, bind, Except.bind, allMask, hx1, exactly_self, hadd,
-      codeAcc]
-    rw [← hx1, h2]
+    have hu' : p + 6 + a.len ≤ avail := by omega
+    simp only [readCodeAttrs, need, h6, hu', if_true, bind, Except.bind, allMask, hx1, exactly_self, hadd,
+      codeAcc, h2]
     congr 2
     omega
 
@@ -219,7 +218,7 @@ theorem readCode_full {avail i : Nat} {c : Code} {p : Nat}
   simp only [Code.size, attrsSize_eq] at hlen
   have h1 : p + c.hdr ≤ avail := by omega
   have h2 : p + c.hdr + 2 ≤ avail := by omega
-  have h3 := readCodeAttrs_full (i := i) c.attrs {} (p + c.hdr + 2) hx.2 (by simpa using hwf) (by omega)
+  have h3 := readCodeAttrs_full (avail := avail) (i := i) c.attrs {} (p + c.hdr + 2) hx.2 (by simpa using hwf) (by omega)
   have hex : exactly (p + c.hdr + 2 + lensSize (attrLens c.attrs) - p) c.len = .ok () := by
     have : p + c.hdr + 2 + lensSize (attrLens c.attrs) - p = c.len := by omega
     rw [this]; exact exactly_self _
@@ -244,7 +243,7 @@ theorem readMethodAttrs_full {avail i : Nat} : ∀ (as : List MAttr) (p : Nat),
       simp only [mattrLens, List.map_cons, mattrLen, lensSize_cons] at hle ⊢
       have h6 : p + 6 ≤ avail := by omega
       have hx1 : leafExact methodAct a = true := by simpa [mattrExact] using hx.1
-      have h1 := leaf1_full (mk := Ev.mAttr i) (p := p + 6) hx1 (by omega)
+      have h1 := leaf1_full (avail := avail) (mk := Ev.mAttr i) (p := p + 6) hx1 (by omega)
       have h2 := ih (p + 6 + a.len) hx.2 hwf.2 (by simp only [mattrLens]; omega)
       simp only [mattrLens] at h2
       simp only [readMethodAttrs, need, h6, if_true, bind, Except.bind, fullMc, h1, h2, pure_ok, methodAttrsEv]
@@ -255,7 +254,7 @@ theorem readMethodAttrs_full {avail i : Nat} : ∀ (as : List MAttr) (p : Nat),
     | code c =>
       simp only [mattrLens, List.map_cons, mattrLen, lensSize_cons] at hle ⊢
       have h6 : p + 6 ≤ avail := by omega
-      have h1 := readCode_full (i := i) (c := c) (p := p + 6) (by simpa [mattrExact] using hx.1)
+      have h1 := readCode_full (avail := avail) (i := i) (c := c) (p := p + 6) (by simpa [mattrExact] using hx.1)
         (by simpa [mattrWf] using hwf.1) (by omega)
       have h2 := ih (p + 6 + c.len) hx.2 hwf.2 (by simp only [mattrLens]; omega)
       simp only [mattrLens] at h2
@@ -269,7 +268,7 @@ theorem readMethod_full {avail : Nat} {i : Nat} {mt : Method} {p : Nat}
   simp only [Method.size, attrsSize_eq] at hle ⊢
   have h4 : p + 6 ≤ avail := by omega
   have h2 : p + 6 + 2 ≤ avail := by omega
-  have h3 := readMethodAttrs_full (i := i) mt.attrs (p + 6 + 2) hx hwf (by omega)
+  have h3 := readMethodAttrs_full (avail := avail) (i := i) mt.attrs (p + 6 + 2) hx hwf (by omega)
   simp only [readMethod, full_method, need, h4, h2, if_true, bind, Except.bind, h3, pure_ok, methodEv]
   congr 2
   omega
@@ -286,7 +285,7 @@ theorem readMethods_full {avail : Nat} : ∀ (ms : List Method) (i p : Nat),
     simp only [List.all_cons, Bool.and_eq_true] at hx hwf
     have hs : methodsSize (f :: fs) = f.size + methodsSize fs := by simp [methodsSize]
     rw [hs] at hle ⊢
-    have h1 := readMethod_full (i := i) (p := p) hx.1 hwf.1 (by omega)
+    have h1 := readMethod_full (avail := avail) (i := i) (p := p) hx.1 hwf.1 (by omega)
     have h2 := ih (i + 1) (p + f.size) hx.2 hwf.2 (by omega)
     simp only [readMethods, h1, h2, bind, Except.bind, pure_ok, methodsEv]
     congr 2
@@ -312,7 +311,7 @@ theorem skipAttrs_full {avail : Nat} (lens : List Nat) (p : Nat) (hle : p + attr
     skipAttrs avail lens p = .ok (p + attrsSize lens) := by
   rw [attrsSize_eq] at hle ⊢
   have h2 : p + 2 ≤ avail := by omega
-  have h := skipAttrsGo_full lens (p + 2) (by omega)
+  have h := skipAttrsGo_full (avail := avail) lens (p + 2) (by omega)
   simp only [skipAttrs, need, h2, if_true, bind, Except.bind, h]
   congr 1
   omega
@@ -326,10 +325,43 @@ theorem skipMembers_full {avail : Nat} : ∀ (ls : List (List Nat)) (p : Nat),
   | cons l ls ih =>
     intro p hle
     simp only [List.map_cons, List.sum_cons] at hle ⊢
-    have h1 := skipAttrs_full l (p + 6) (by omega)
+    have h1 := skipAttrs_full (avail := avail) l (p + 6) (by omega)
     have h2 := ih (p + 6 + attrsSize l) (by omega)
     simp only [skipMembers, h1, bind, Except.bind, h2]
     congr 1
     omega
+
+/-! ## the whole class -/
+
+/-- the full read of a well-formed class file succeeds as soon as its bytes are available, consumes exactly its
+size and delivers `fullEvents` -/
+theorem readWith_full {c : ClassFrame} {avail : Nat} (hwf : wellFormed c = true) (hle : c.size ≤ avail) :
+    readWith full c avail = .ok (c.size, fullEvents c) := by
+  simp only [wellFormed, Bool.and_eq_true] at hwf
+  obtain ⟨⟨⟨hx, hok⟩, hcw⟩, hmw⟩ := hwf
+  obtain ⟨hxf, hxm, hxa⟩ := framesExact_parts hx
+  have hsz : c.size = c.hdr + (2 + fieldsSize c.fields) + (2 + methodsSize c.methods)
+      + (2 + lensSize (cattrLens c.attrs)) := by
+    simp [ClassFrame.size, fieldsSize, methodsSize, attrsSize_eq]
+  rw [hsz] at hle ⊢
+  have h0 : 0 + c.hdr ≤ avail := by omega
+  have h1 : 0 + c.hdr + 2 ≤ avail := by omega
+  have h2 := skipMembers_full (avail := avail) (c.fields.map (fun f => attrLens f.attrs)) (0 + c.hdr + 2)
+    (by rw [fields_sum]; omega)
+  rw [fields_sum] at h2
+  have h3 : 0 + c.hdr + 2 + fieldsSize c.fields + 2 ≤ avail := by omega
+  have h4 := skipMembers_full (avail := avail) (c.methods.map (fun m => mattrLens m.attrs))
+    (0 + c.hdr + 2 + fieldsSize c.fields + 2) (by rw [methods_sum]; omega)
+  rw [methods_sum] at h4
+  have h5 : 0 + c.hdr + 2 + fieldsSize c.fields + 2 + methodsSize c.methods + 2 ≤ avail := by omega
+  have h6 := readClassAttrs_full (avail := avail) c.attrs {}
+    (0 + c.hdr + 2 + fieldsSize c.fields + 2 + methodsSize c.methods + 2) hxa hcw (by omega)
+  have h7 := readFields_full (avail := avail) c.fields 0 (0 + c.hdr + 2) hxf (by omega)
+  have h8 := readMethods_full (avail := avail) c.methods 0 (0 + c.hdr + 2 + fieldsSize c.fields + 2) hxm hmw
+    (by omega)
+  simp only [readWith, full_cls, need, h0, h1, h3, h5, if_true, bind, Except.bind, hok, Bool.not_true,
+    Bool.false_eq_true, if_false, h2, h4, h6, h7, h8, pure_ok, fullEvents]
+  congr 2
+  omega
 
 end Visit
